@@ -189,6 +189,23 @@ pub fn run(tier: Tier) -> i32 {
                     }
                 }
             }
+            // the word in the SECOND part, right after or before a small number; first parts from the phrase list
+            for w in &ws {
+                for b in [format!("{} {w} {}", c.unit, c.ordinary), format!("{w} {} {}", c.unit, c.ordinary), format!("{} {w}", c.unit)] {
+                    let alone_b2 = guard(|| replace_numbers_in_text(&b, &lang, t)).unwrap_or_else(|e| e);
+                    for (ai, a) in bs.iter().enumerate() {
+                        let s = SEPARATORS[0];
+                        acc.states += 1;
+                        acc.traces += 1;
+                        let text = format!("{a}{s}{b}");
+                        let got = guard(|| replace_numbers_in_text(&text, &lang, t)).unwrap_or_else(|e| e);
+                        let want = format!("{}{s}{alone_b2}", alone_b[ai]);
+                        if got != want {
+                            ctx.report(&mut acc, Violation { lang: l.code().into(), entry: "replace_text".into(), input: text, threshold: Some(t), clause: "rewrite(A S B, t) = rewrite(A, t) S rewrite(B, t), B built around a linking word or unknown literal".into(), expected: want, observed: got });
+                        }
+                    }
+                }
+            }
             // two unknown literals, one in each part, the second in front of a number
             for w1 in &news {
                 for w2 in &news {
